@@ -131,14 +131,14 @@ Proof.
   destruct (String.eqb _ ""); [apply sync_cancel_wf; exact WF | exact WF].
 Qed.
 
-Theorem sync_yield_wf : forall lookup d callee req opts args kw,
-    dealer_wf lookup d -> dealer_wf lookup (fst (sync_yield d callee req opts args kw)).
+Theorem sync_yield_wf : forall lookup lk d callee req opts args kw,
+    dealer_wf lookup d -> dealer_wf lookup (fst (sync_yield lk d callee req opts args kw)).
 Proof.
-  intros lookup d callee req opts args kw WF. pose proof WF as [A B C D E].
-  destruct (sync_yield_core d callee req opts args kw D) as [D' S].
+  intros lookup lk d callee req opts args kw WF. pose proof WF as [A B C D E].
+  destruct (sync_yield_core lk d callee req opts args kw D) as [D' S].
   eapply dealer_wf_regs_same; [| exact WF | exact D' | eapply calls_att_sub; eauto].
   destruct (cget (d_invs d) (callee, req)) as [inv|] eqn:Hi.
-  - rewrite (sync_yield_owner _ _ _ _ _ _ _ Hi). cbn [fst].
+  - rewrite (sync_yield_owner _ _ _ _ _ _ _ _ Hi). cbn [fst]. unfold yield_result_state.
     destruct (opt_bool opts "progress"); [repeat split; reflexivity|].
     unfold regs_side_eq, yield_state, drop_call; dproj;
       rewrite ?ct_exact, ?ct_pfx, ?ct_wc, ?ct_regs, ?ct_callee_regs, ?ct_idgen; repeat split; reflexivity.
